@@ -327,6 +327,17 @@ TRUSTED_ALWAYS = [
     '`while` loops; no claim about recursion depth or memory',
     'user-supplied values: __eq__/__bool__/__len__ are side-effect free; argument-store keys are '
     'int or str',
+    'heap model: closed entry heap (no reference to a not yet allocated object), list lengths are '
+    'non-negative, tuple objects are immutable, a class of an object never changes',
+    'dict / set iteration order is modelled as a function of the key set (two dicts with the same keys '
+    'enumerate alike); spec functions given by definite description and used through explicit '
+    'instances only: zip_last (dict(zip)), dkeys_* (iteration), oa_keys (key set of ordered_arguments, '
+    'proved equal by extensionality)',
+    'summaries of side-effect-free comprehensions / dict(zip) / set union / record construction and the '
+    'mechanical desugaring of assigned comprehensions into accumulator loops (loader.desugar_comprehensions)',
+    'lemma clients in /verif/lemmas are proved against callee contracts only (theorems about the '
+    'contracts); havoc_all callees (arbitrary user code) are assumed not to reach the private '
+    'containers named in their contracts',
     'z3 5.1 / cvc5 soundness',
     'everything under coverage.evaluations is bounded enumeration (layer B), never counted as proved',
 ]
